@@ -3,7 +3,15 @@ ENGINES = [
   "kind_free_text": "deterministic simulation: real scan engine on SimFS (in-memory disk with seeded listing order, chunking, latency on a synctest fake clock, fault plans keyed by k-th occurrence of an operation on a path) + harness plugins + recording collector; rapid generates and shrinks scenarios; replay file = scenario"},
 ]
 NOTES = "Deterministic simulation with fault injection; see DESIGN.md. ./check selftest proves determinism (same scenario, fresh processes, GOMAXPROCS 1/4/16 => identical history fingerprints)."
-PENDING = {k: "claimed in DESIGN.md; check not yet built in this commit" for k in ["C02", "C04", "C05", "C06", "C11", "C12"]}
+PENDING = {k: "claimed in DESIGN.md; check not yet built in this commit" for k in ["C02", "C04", "C05", "C06"]}
+ENGINES += [
+ {"name": "world-K", "path": "harness/worlds/cache", "serves_properties": ["C16"],
+  "kind_free_text": "deterministic simulation: real RequestCache with build-time inserted yields at lock boundaries, simulated clients and fetch callbacks under a seeded cooperative scheduler inside a synctest bubble; porcupine linearizability + counter invariants"},
+ {"name": "world-R", "path": "harness/worlds/remed", "serves_properties": ["C11", "C12", "C16"],
+  "kind_free_text": "deterministic simulation: real guidedremediation.FixVulns/Update over a generated package universe served by the real deps.dev LocalClient wrapped in SimClient (park at every call, transient errors) + SimMatcher, content-named cooperative scheduler deciding every interleaving of the patch goroutines, manifests on sandboxed real disk, tier-2 os.WriteFile faults through the overlay shim"},
+ {"name": "world-stress", "path": "harness/worlds/stress", "serves_properties": ["C16"],
+  "kind_free_text": "free-running goroutines under the race detector on the shared RequestCache and CombinedNativeClient lazy initialisation (schedule NOT simulator-controlled, stated)"},
+]
 
 chk("C01", "exploration",
     "seeded exploration: ~50k (quick) / millions (thorough) generated tree x option x predicate scenarios run through the real Scanner.Scan on a simulated disk; the recorded seam history (FileRequired/Open/Extract/Close) is compared with an independent reference walker (exactly-once multiset), inventory = union of returns, statuses, and the sub-directory law on every reachable directory. Sampling, not proof.",
@@ -21,10 +29,18 @@ chk("C10", "fault_enumeration",
     "scan half: per generated scenario, inode limits around the measured visit count, size limits around every file size present, and cancel() delivered at EVERY seam event of the fault-free history (plus pre-cancelled); oracle from the recorded history: counters vs limit, nothing starts after the cancel instant, failure iff work remained. Image byte-limit half runs in world I.",
     "'file being handled' at a cancel instant is the most recent AfterInodeVisited path; if only traversal remained either outcome is accepted",
     "deterministic simulation: cancellation-instant enumeration over the recorded history; boundary-value limits", "world-S", "DESIGN.md 4/C10")
+chk("C11", "exploration",
+    "seeded exploration of generated npm and Maven universes x manifests x vulnerability sets x upgrade configurations x seeded goroutine schedules x transient registry errors through the real FixVulns (relax, override) and Update; every proposed and applied update is checked against independent resolutions of 'manifest + patch minus this update' (strictly upward, within level, never a package configured none), applied changes against the file on disk, termination by a call budget.",
+    "SimClient serves the universe through the real deps.dev LocalClient; the base/new versions are computed with the real resolvers over harness-rendered variant manifests; Maven manifests with duplicate declarations / shared or foreign properties hit known findings R-F3, R-F4, R-F8 (listed in known_findings.json), which mask C11 violations on exactly those manifest shapes",
+    "deterministic simulation: simulated registry + vulnerability database, seeded cooperative scheduling of the patch goroutines, transient-error injection; reference resolutions as oracle", "world-R", "DESIGN.md 4/C11")
+chk("C12", "exploration",
+    "as C11 x remediation options; the manifest FixVulns wrote to (sandboxed real) disk is analysed again by a fresh FixVulns over fresh client/matcher instances: vulnerabilities found = original - fixed + introduced for a single applied patch; no patch => requirements unchanged (independent minimal reader); fixed => not unactionable; under an injected write failure (overlay shim) FixVulns must return an error.",
+    "second analysis uses the library's own reader and resolver (the claim is about report vs disk, not about reading); known findings R-F2, R-F3b, R-F8 mask the manifest shapes they name",
+    "deterministic simulation: durable-state check (report vs disk) under seeded schedules and injected registry / disk faults", "world-R", "DESIGN.md 4/C12")
 chk("C16", "exploration",
-    "(c) whole scans under the race detector in a synctest bubble with simulated latency so the 2 s status ticker fires (reports attributed per scenario via GORACE log_path). Parts (a) patch-list schedule independence and (b) request cache linearizability are added by worlds R and K.",
-    "race detector finds races only on executed paths; interleavings at seam granularity",
-    "deterministic simulation on a fake clock + race detector; (a)/(b): cooperative seeded scheduler, porcupine linearizability", "world-S", "DESIGN.md 4/C16")
+    "(a) world R: the same remediation problem under FIFO and seeded schedule vectors (every interleaving of resolve-client and matcher calls of the patch goroutines decided by the simulator), patch and vulnerability lists must be deep-equal, sorted, de-duplicated; (b) world K: RequestCache with yields at lock boundaries, 2-4 clients over 1-2 keys, slow/failing fetches, GetMap observer: porcupine linearizability + at-most-one-fetch-per-success + stale-error + snapshot invariants; (c) world S: whole scans under -race in a synctest bubble with simulated latency so the 2 s status ticker fires; (d) free-running stress of cache and CombinedNativeClient lazy init under -race.",
+    "interleavings at seam granularity (client/matcher calls, lock boundaries); the cooperative scheduler's hand-overs create happens-before edges, so unsynchronised sharing is left to parts (c) and (d) and to the snapshot observer; part (d) is not replayable",
+    "deterministic simulation: seeded cooperative scheduler + porcupine linearizability + race detector on a fake clock", "world-K", "DESIGN.md 4/C16")
 chk("C20", "exploration",
     "seeded exploration of whole simulated scans with 0-4 harness detectors in seeded order, plugin failures as the fault kind; oracle over the history at the plugin seam: each detector called once, index answers = extracted purl-bearing packages, findings tagged, statuses, advisory-conflict => failed scan.",
     "findings with an advisory but a nil advisory ID are not generated",
